@@ -690,7 +690,7 @@ func (ex *Exec) mapArrays(st State, mt types.Type, m Term) (dom, val, ln Term) {
 	v := ex.get(st, "MV|"+k, arraySort(SRef, arraySort(ks, vs)))
 	l := ex.get(st, "ML|"+k, arraySort(SRef, SInt))
 	ln = sel(l, m, SInt)
-	ex.vc.assume(tTrue, app(SBool, "<=", intLit(0), ln), "map len non-negative")
+	ex.vc.assume(tTrue, and(app(SBool, "<=", intLit(0), ln), app(SBool, "<=", ln, T("281474976710656", SInt))), "map len between 0 and 2^48")
 	return sel(d, m, arraySort(ks, SBool)), sel(v, m, arraySort(ks, vs)), ln
 }
 
